@@ -286,6 +286,39 @@ func c04CheckE2E(c c04E2ECase) engine.Result {
 						res.Failf("adaptationfield.OPCR|read-back", "afLen %d: got % x err %v", afLen, b, err)
 					}
 				}
+				// each of the other optional fields is added behind the clocks and removed again: both clocks
+				// must read back what was set after every step
+				if c.Kind == "af-both" && afLen >= 20 {
+					clocks := func(step string) {
+						if got, err := af.PCR(); err != nil || got != c.V {
+							res.Failf("PCR|read-back-after-"+step, "afLen %d: PCR %d reads back %d (err %v)", afLen, c.V, got, err)
+						}
+						if got, err := af.OPCR(); err != nil || got != ref.PCRValue(model.OPCR) {
+							res.Failf("OPCR|read-back-after-"+step, "afLen %d: OPCR %d reads back %d (err %v)", afLen, ref.PCRValue(model.OPCR), got, err)
+						}
+					}
+					if af.SetHasSplicingPoint(true) == nil && af.SetSpliceCountdown(0x47) == nil {
+						clocks("splice-countdown-added")
+						if af.SetHasSplicingPoint(false) == nil {
+							clocks("splice-countdown-removed")
+						}
+					}
+					if af.SetHasTransportPrivateData(true) == nil && af.SetTransportPrivateData([]byte{0xA1, 0xA2}) == nil {
+						clocks("private-data-added")
+						if af.SetHasTransportPrivateData(false) == nil {
+							clocks("private-data-removed")
+						}
+					}
+					if af.SetHasAdaptationFieldExtension(true) == nil && af.SetAdaptationFieldExtension([]byte{0xE1}) == nil {
+						clocks("extension-added")
+						if af.SetHasAdaptationFieldExtension(false) == nil {
+							clocks("extension-removed")
+						}
+					}
+					if p != packet.Packet(want) {
+						res.Failf(c.Kind+"|packet-bytes-after-add-remove", "afLen %d value %d: after adding and removing the other optional fields the packet is % x want % x", afLen, c.V, p[:24], want[:24])
+					}
+				}
 				// the values stay what was set when fields around them come and go
 				if c.Kind == "af-both" && afLen >= 20 {
 					if af.SetHasSplicingPoint(true) == nil && af.SetSpliceCountdown(0x5A) == nil && af.SetHasTransportPrivateData(true) == nil &&
